@@ -100,5 +100,6 @@ theorem sysStep_cur {M : Nat} {s s' : Sys} {c : Choice} (h : sysStep M s c = som
     · cases h
     · exact Or.inl (bpRun_cur h)
   | moveLeader b => simp only [sysStep, Option.some.injEq] at h; rw [← h]; exact Or.inl rfl
+  | closeW w => obtain ⟨_, rfl⟩ := closeW_spec h; exact Or.inl rfl
 
 end Lemmas.C02sys
